@@ -121,10 +121,19 @@ inline constexpr bool IS_NOTRHOW_LEXICOGRAPHICAL_COMPARABLE<
     T, std::void_t<decltype(std::declval<const T&>() < std::declval<const T&>())>> =
     noexcept(std::declval<const T&>() < std::declval<const T&>());
 
+template <class T>
+inline constexpr bool IS_INTEGRAL_OR_ENUM = std::is_integral_v<T> || std::is_enum_v<T>;
+
+// Whether constructing a T from a U is the same as copying the bytes of the U: always for the same type, and for
+// integral and enumeration types of equal size (except that a bool can only be filled from a bool). Conversions between
+// other types (class types with converting constructors or conversion operators, pointers to different classes, ...)
+// may change the representation.
 template <class T, class U>
 inline constexpr bool MEMCPY_COMPATIBLE =
     detail::EQUAL_SIZEOF<T, U> && std::is_trivially_copyable_v<T> && std::is_trivially_copyable_v<U> &&
-    std::is_floating_point_v<T> == std::is_floating_point_v<U>;
+    (std::is_same_v<std::remove_cv_t<T>, std::remove_cv_t<U>> ||
+     (detail::IS_INTEGRAL_OR_ENUM<T> && detail::IS_INTEGRAL_OR_ENUM<U> &&
+      (!std::is_same_v<std::remove_cv_t<T>, bool> || std::is_same_v<std::remove_cv_t<U>, bool>)));
 
 // Implementation taken from MSVC _Can_memcmp_elements
 template <class T, class U = T,
